@@ -15,6 +15,62 @@ from .report import Context, write_evidence, VERIF
 ALL = [f'C{n:02d}' for n in range(1, 21)]
 
 
+_GUARDED = False
+_CURRENT = [None]
+
+
+def _install_rule_guards():
+    """Every rule entry (a function `rN_...`, `check_...`, or a shared rule, whose first parameter is `ctx`) is made
+    independent of the others: an AnalysisError inside one rule is recorded and the next rule still runs.  A rule whose input
+    was to be produced by a rule that failed is skipped.  The verdict logic is in run_property: violations found by the rules
+    that completed are reported; without any violation the first recorded error makes the run exit 2."""
+    global _GUARDED
+    if _GUARDED:
+        return
+    _GUARDED = True
+    import functools
+    import inspect
+    import pkgutil
+    import re
+    from . import rules as rules_pkg
+    mods = []
+    for m in pkgutil.iter_modules(rules_pkg.__path__):
+        mods.append(importlib.import_module(f'kpsa.rules.{m.name}'))
+    pat = re.compile(r'^(r\d+[a-z]?_|check_|whole_cell_|plain_encodings_|effect_free$|note_receives_)')
+    wrapped = {}
+
+    def guard(fn):
+        if fn in wrapped:
+            return wrapped[fn]
+
+        @functools.wraps(fn)
+        def w(ctx, *a, **k):
+            cur = _CURRENT[0]
+            if cur is None or cur is not ctx:
+                return fn(ctx, *a, **k)
+            if ctx.errors and any(x is None for x in a):
+                ctx.errors.append(AnalysisError(f'{fn.__name__} skipped: its input was not produced'))
+                return None
+            try:
+                return fn(ctx, *a, **k)
+            except AnalysisError as e:
+                ctx.errors.append(e)
+                return None
+            except (TypeError, AttributeError, KeyError, IndexError):
+                if ctx.errors:          # a consequence of an input that an earlier, failed rule should have produced
+                    ctx.errors.append(AnalysisError(f'{fn.__name__} could not run after an earlier analysis error'))
+                    return None
+                raise
+        wrapped[fn] = w
+        return w
+    for mod in mods:
+        for name, obj in list(vars(mod).items()):
+            if inspect.isfunction(obj) and obj.__module__.startswith('kpsa.rules') and pat.match(obj.__name__):
+                params = list(inspect.signature(obj).parameters)
+                if params and params[0] == 'ctx':
+                    setattr(mod, name, guard(obj))
+
+
 def run_property(prop: str, tier: str, repo: str, overlay=None, seed: int = 0, known_path=None):
     """Analyse one property on a tree; returns the Context. Raises AnalysisError."""
     from .model import Program
@@ -26,9 +82,22 @@ def run_property(prop: str, tier: str, repo: str, overlay=None, seed: int = 0, k
     from . import symex
     symex.INLINER = symex.Inliner(ctx)
     symex._CACHE.clear()
+    _install_rule_guards()
+    ctx.errors = []
+    _CURRENT[0] = ctx
     try:
-        mod.run(ctx)
+        try:
+            mod.run(ctx)
+        except AnalysisError as e:
+            ctx.errors.append(e)
+        # rules are independent: violations reported by the rules that completed stand on their own; an anchor that another
+        # rule no longer finds (often a consequence of the same change) is recorded, not allowed to hide them
+        if ctx.errors and not ctx.violations:
+            raise ctx.errors[0]
+        if ctx.errors:
+            ctx.analysed['rules_not_evaluated'] = [str(e)[:200] for e in ctx.errors[:5]]
     finally:
+        _CURRENT[0] = None
         ctx.analysed['helper_calls_inlined'] = symex.INLINER.count
         symex.INLINER = None
         symex._CACHE.clear()
